@@ -24,9 +24,45 @@ def dual_source(ctx):
     ctx.srcP = P
 
 
+def fixed_param_templates():
+    ONE = ()
+    F = C.F
+
+    def V(v, e=1):
+        return ((v, e),)
+
+    def asg(v, poly):
+        return ("assign", v, [(F(1), poly)], ("true",), v)
+    P = ("par", "p", F(1), F(0))
+    out = []
+    # dependence on the parameter only through another variable's initial value
+    out.append(("init_chain", {"vars": ["x", "y", "z"], "s0": {}, "guard": ("true",),
+                               "init": [asg("x", [(P, ONE)]), asg("y", [(F(1), V("x", 2)), (F(1), ONE)]), asg("z", [])],
+                               "body": [("assign", "x", [(F(1, 2), [(F(1), V("x")), (F(1), ONE)]), (F(1, 2), [(F(1), V("x"))])], ("true",), "x"),
+                                        asg("y", [(F(1), V("y")), (F(1), V("x"))]),
+                                        asg("z", [(F(1), V("z")), (F(1), V("y"))])]}, ["x", "y", "z", "y**2"]))
+    # a dependence chain that runs against the program order
+    out.append(("long_chain", {"vars": ["a", "b", "c", "d"], "s0": {}, "guard": ("true",),
+                               "init": [asg(v, []) for v in "abcd"],
+                               "body": [asg("a", [(F(1), V("a")), (F(1), V("b"))]), asg("b", [(F(1), V("b")), (F(1), V("c"))]),
+                                        asg("c", [(F(1), V("c")), (F(1), V("d"))]),
+                                        ("assign", "d", [(P, [(F(1), V("d")), (F(1), ONE)]), (("par", "p", F(-1), F(1)), [(F(1), V("d"))])], ("true",), "d")]},
+                ["a", "b", "a**2", "d"]))
+    # parameter as a coefficient
+    out.append(("coefficient", {"vars": ["x", "y"], "s0": {}, "guard": ("true",),
+                                "init": [asg("x", [(F(1), ONE)]), asg("y", [])],
+                                "body": [asg("x", [(P, V("x")), (F(1), ONE)]), asg("y", [(F(1), V("y")), (P, V("x", 2))])]},
+                ["x", "y", "x*y"]))
+    items = []
+    for name, T, goals in out:
+        items.append({"id": "ptmpl-" + name, "text": gen.render(gen.to_text_template(T)), "T": T, "params": ["p"],
+                      "points": [{"p": "1/3"}, {"p": "3/4"}], "goals": goals, "dparam": "p", "origin": "fixed parametric template " + name})
+    return items
+
+
 def main(tier, seed):
     quick = tier == "quick"
-    items = []
+    items = fixed_param_templates()
     for it in C.generated(seed, 30 if quick else 250, profile={"params": True}, ngoals=4, prefix="sens"):
         if "p" in it["params"]:
             it["dparam"] = "p"
@@ -37,5 +73,5 @@ def main(tier, seed):
             it["dparam"] = inits[0]
             items.append(it)
     return analysis_check("C10", tier, seed, items=items, want=["sens"], builders=[dual_source, C.b_sens],
-                          N=5 if quick else 8, timeout=150,
+                          N=6 if quick else 8, timeout=150,
                           assumptions=["parameters occur in probabilities and symbolic initial values of generated programs (coefficients: corpus only)"])
